@@ -671,3 +671,86 @@ def c08_r11(ctx):
                            detail="reaches it unconverted: " + "; ".join(sorted(set(bad))) if bad else "", loc=ctx.nodeloc(m, st))
     if n < 1:
         raise AnalysisError("no field type passes an attribute as its column's default any more")
+
+
+_CONVERTERS = ("index", "spellable_words", "word_values", "to_column_value", "to_bytes", "process_text", "tokenize")
+
+
+@rule("C08", "R12", "K1", "a document is written only after every one of its values has been converted",
+      min_instances=1, also=("C01", "C07"),
+      clause="SegmentWriter.add_document() may fail on a value (a string in a NUMERIC field, a number in an ID field) and promises "
+             "that the writer stays usable: it cancels the document and re-raises, and the next document gets the same number.  "
+             "cancel_doc() only takes the counter back -- postings already in the pool, lengths and column rows already written stay "
+             "and are read as the NEXT document's (its rows shift by one for the rest of the segment).  So on no path may a call that "
+             "converts a user value (field.index / spellable_words / word_values / to_column_value, or the loop that drains a lazy "
+             "field.index() result) come after an effect on the pool or the per-document writer: everything is converted first.")
+def c08_r12(ctx):
+    prog = ctx.prog
+    f = prog.method("writing.SegmentWriter", "add_document", inherited=False)
+    ctx.saw(f)
+    al = norm.aliases(f.node)
+    g = cfgmod.cfg_of(f, exc_edges=False)
+
+    def is_effect(c):
+        t = norm.canon(c.func, al)
+        if t == "self.pool.add":
+            return True
+        recv = norm.receiver(c)
+        return recv is not None and norm.canon(recv, al) == "self.perdocwriter" and norm.call_name(c).startswith("add_")
+
+    def is_convert(c):
+        if not isinstance(c.func, ast.Attribute) or c.func.attr not in _CONVERTERS:
+            return False
+        r = norm.canon(c.func.value, al)
+        return not r.startswith("self")
+
+    lazy = set()      # names bound to the (possibly lazy) result of a converter
+    for st in ast.walk(f.node):
+        if isinstance(st, ast.Assign) and isinstance(st.value, ast.Call) and is_convert(st.value):
+            for t in st.targets:
+                if isinstance(t, ast.Name):
+                    lazy.add(t.id)
+    eff, conv = [], []
+    for nd in g.nodes:
+        a = nd.ast
+        if a is None:
+            continue
+        if nd.kind in ("for", "iter_init") and isinstance(a, ast.For) and isinstance(a.iter, ast.Name) and a.iter.id in lazy:
+            conv.append((nd, "the loop draining `%s`" % a.iter.id))
+        if nd.kind == "iter_init" and isinstance(a, ast.For):
+            frags = [a.iter]
+        else:
+            frags = cfgmod.node_exprs(nd)
+        for frag in frags:
+            for c in norm.calls_in(frag):
+                if is_effect(c):
+                    eff.append((nd, norm.canon(c.func)))
+                elif is_convert(c):
+                    conv.append((nd, norm.canon(c.func) + "()"))
+    if len(eff) < 3 or len(conv) < 3:
+        raise AnalysisError("add_document: %d effects / %d conversions recognised (expected pool.add, add_vector_items, add_field, "
+                            "add_column_value and index, spellable_words, word_values, to_column_value)" % (len(eff), len(conv)))
+    # forward reachability from every effect node
+    reach = {}
+    for nd, _ in eff:
+        if nd.id in reach:
+            continue
+        seen = set()
+        stack = [s for (s, lab) in nd.succs if lab != "exc"]
+        while stack:
+            x = stack.pop()
+            if x.id in seen:
+                continue
+            seen.add(x.id)
+            stack.extend(s for (s, lab) in x.succs if lab != "exc")
+        reach[nd.id] = seen
+    for cn, ctext in conv:
+        first = None
+        for en, etext in eff:
+            if cn.id in reach[en.id]:
+                first = (en, etext)
+                break
+        ctx.ob(f, first is None, "%s runs before anything of the document is written" % ctext,
+               detail=("reachable after %s (line %d): if it raises, what was written stays under the number the next document gets"
+                       % (first[1], getattr(first[0].ast, "lineno", 0))) if first else "",
+               loc=ctx.nodeloc(f, cn.ast))
